@@ -17,9 +17,12 @@ META = {
         'Arc: non-uniform scaled() must raise.  Joints: transform_segments_together runs on paths of n<=3 segments for every '
         'coincidence pattern incl. the closing joint; the end/start terms of each previously coinciding joint are abstracted to '
         'uninterpreted arithmetic (every +,-,*,/ an uninterpreted function) and z3 (QF_UF) decides whether they are equal for ANY '
-        'arithmetic, IEEE included; a sat answer is replayed on doubles.'),
-    'outside': ['Arc translated/rotated/uniform scaled and the Arc branch of transform() (need the Angle domain / eig stub; see DESIGN)',
-                'numerical quality; non-invertible matrices'],
+        'arithmetic, IEEE included; a sat answer is replayed on doubles.  Arc branch of transform(): executed with a symbolic affine matrix '
+        '(classes: similarity, diagonal, shear, reflection, general), symbolic radii/end points; inv/det closed forms, eigh by contract; '
+        'obligations (i) new radii/rotation = spectral form of eigh\'s output, (ii) the matrix handed to eigh pulled back by A is the old '
+        'ellipse\'s quadratic form, (iii) end points mapped, large_arc kept, sweep flipped iff det < 0 -- equalities through z3-checked certificates.'),
+    'outside': ['Arc branch of transform(): rotations with rational cos/sin only; the step from (end points, quadratic form, flags) to point(t) rests on C04 '
+                'and on the contract of numpy.linalg.eigh', 'numerical quality; non-invertible matrices'],
     'assumptions': ['radians/exp of the rotation angle: unit pair c^2+s^2=1 shared by code and oracle'],
 }
 
@@ -447,11 +450,228 @@ def fam_joints(R, n, op):
             R.sample({'op': op, 'kinds': ''.join(kinds), 'joined': joined})
 
 
+REPLAY_ARCTF = """
+import numpy as np
+from svgpathtools.path import transform
+rx, ry, rot, M = %r
+M = np.array(M)
+arcs = [Arc(0.5+0.25j, complex(rx, ry), rot, la, sw, 2+1.5j) for la in (0, 1) for sw in (0, 1)]
+for arc in arcs:
+    try:
+        b = transform(arc, M)
+    except Exception as e:
+        REPRODUCED('transform(%%r, %%r) raised %%s: %%s' %% (arc, M.tolist(), type(e).__name__, e))
+    for t in (0.0, 0.2, 0.5, 0.9, 1.0):
+        p = arc.point(t)
+        q = M.dot([p.real, p.imag, 1.0])
+        want = complex(q[0], q[1]); got = b.point(t)
+        if abs(got - want) > 1e-6 * (1 + abs(want)):
+            REPRODUCED('transform(%%r, %%r).point(%%r) = %%r but M applied to point(%%r) is %%r' %% (arc, M.tolist(), t, got, t, want))
+"""
+
+
+def fam_arc_transform(R, rot, mclass):
+    """the Arc branch of transform(): executed on an arc with symbolic end points and radii, a rotation with rational
+    cos/sin and a symbolic invertible affine matrix.  np.linalg.inv / det of the 2x2 block are closed forms, np.linalg.eigh is its
+    contract (eigenpairs of the symmetric matrix it is given: D v = lambda v, unit orthogonal eigenvectors, ascending eigenvalues),
+    arctan2 of a unit vector is the angle with that cos/sin.  Claims: new start/end are the images of the old ones; the quadratic
+    form of the new radii/rotation, pulled back by the matrix, is the quadratic form of the old ellipse (A^T F' A = F); large_arc is
+    kept and sweep flips exactly for orientation-reversing matrices.  With C04 (an arc is determined by end points, radii,
+    rotation and flags, parameterised linearly in the eccentric angle) this is point(t) -> M point(t)."""
+    import svgpathtools.path as P
+    from svgpathtools.path import transform, Arc
+    from . import c04
+    from ..ang import Ang
+    from .. import symx
+    deg, c, s = c04.ROTATIONS[rot]
+    R.bound(rotation=rot, matrix=mclass, radii='symbolic > 0', end_points='symbolic')
+    R.stub('np.linalg.inv / det (2x2) -> closed forms', 'np.linalg.eigh -> its contract on the symmetric argument', 'np.arctan2 of a unit vector -> angle with that cos/sin',
+           'np.radians/cos/sin of the rotation -> the rational pair of the family', 'Arc._parameterize -> no-op (C04)', 'complex() -> symbolic complex')
+    orig = Arc._parameterize
+
+    def inv2(m):
+        a_, b_, c_, d_ = m[0, 0], m[0, 1], m[1, 0], m[1, 1]
+        det = a_ * d_ - b_ * c_
+        out = np.empty((2, 2), dtype=object)
+        out[0, 0], out[0, 1], out[1, 0], out[1, 1] = d_ / det, -b_ / det, -c_ / det, a_ / det
+        return out
+
+    def det2(m):
+        return m[0, 0] * m[1, 1] - m[0, 1] * m[1, 0]
+    eig_calls = []
+
+    def eigh(Dm):
+        cx = Ctx.cur
+        p_, q_, q2_, r_ = lift(Dm[0, 0]), lift(Dm[0, 1]), lift(Dm[1, 0]), lift(Dm[1, 1])
+        l0, l1 = SR(cx.fresh('lam')), SR(cx.fresh('lam'))
+        vx, vy = SR(cx.fresh('vx')), SR(cx.fresh('vy'))
+        sg = cx.fresh('sg')
+        # only the sign facts enter the path condition (they decide forks); the eigen-relations are hypotheses of the obligations
+        cx.assume(l0.e > 0, l0.e <= l1.e, vx.e >= -1, vx.e <= 1, vy.e >= -1, vy.e <= 1)
+        wx, wy = -vy * SR(sg), vx * SR(sg)
+        # contract of eigh on a symmetric matrix: V orthogonal, V diag(l) V^T = D (ascending l).  Orthonormality is a hypothesis
+        # of the obligations; the spectral equality is what links obligation (i) to obligation (ii) below.
+        contract = [(vx * vx + vy * vy).e == 1, sg * sg == 1]
+        eig_calls.append((contract, (p_, q_, q2_, r_), (l0, l1, vx, vy, wx, wy)))
+        vals = np.empty(2, dtype=object)
+        vals[0], vals[1] = l0, l1
+        vecs = np.empty((2, 2), dtype=object)
+        vecs[0, 0], vecs[1, 0], vecs[0, 1], vecs[1, 1] = vx, vy, wx, wy
+        return vals, vecs
+
+    eigh_fn = eigh
+
+    class LA:
+        inv = staticmethod(inv2)
+        det = staticmethod(det2)
+        eigh = staticmethod(eigh_fn)
+        eig = staticmethod(eigh_fn)
+
+    def arctan2(y, x):
+        return Ang(Ctx.cur.fresh('rotdeg'), lift(x).e, lift(y).e, 'rad')
+
+    def radians(x):
+        if isinstance(x, c04.RotDeg):
+            return Ang(z3.RealVal(repr(float(x))), z3.RealVal(str(x.c)), z3.RealVal(str(x.s)), 'rad')
+        return c04.my_radians(x)
+
+    def sqrt_(x):
+        x = lift(x)
+        return x.sqrt()
+
+    def cplx(re=0, im=0):
+        if isinstance(re, (SR, SC)) or isinstance(im, SR):
+            return tosc(re) + tosc(im) * 1j
+        return complex(re, im)
+
+    def run(la_=True, sw_=True):
+        del eig_calls[:]
+        Arc._parameterize = lambda self: None
+        try:
+            cx = Ctx.cur
+            st, en = symc('st'), symc('en')
+            rx, ry = symr('rx'), symr('ry')
+            cx.assume(rx.e > 0, ry.e > 0, z3.Not(ceq(st, en)))
+            arc = Arc(st, SC(rx, ry), c04.RotDeg(deg, c, s), la_, sw_, en)
+            M = np.empty((3, 3), dtype=object)
+            names = [['m00', 'm01', 'm02'], ['m10', 'm11', 'm12']]
+            for i in range(2):
+                for j in range(3):
+                    M[i, j] = symr(names[i][j])
+            M[2, 0], M[2, 1], M[2, 2] = 0.0, 0.0, 1.0
+            if mclass == 'diagonal':
+                cx.assume(M[0, 1].e == 0, M[1, 0].e == 0)
+            elif mclass == 'shear':
+                cx.assume(M[0, 0].e == 1, M[1, 1].e == 1)
+            elif mclass == 'similarity':
+                cx.assume(M[0, 0].e == M[1, 1].e, M[0, 1].e == (-M[1, 0]).e)
+            elif mclass == 'reflection':
+                cx.assume(M[0, 0].e == (-M[1, 1]).e, M[0, 1].e == M[1, 0].e)
+            detA = det2(M)
+            cx.assume(detA.e != 0)
+            # the identity shortcut (all entries compared) is explored by the Bezier family: here the first entry differs
+            cx.assume(M[0, 1].e != 0 if mclass == 'shear' else M[0, 0].e != 1)
+            class NotIdentity:
+                # transform()'s identity shortcut `all((tf == np.eye(3)).ravel())` is explored in the Bezier family; here tf is not the identity
+                def __eq__(self, o):
+                    return np.array([False])
+                __hash__ = None
+            proxy = NPProxy(linalg=LA, arctan2=arctan2, radians=radians, sqrt=sqrt_, degrees=c04.my_degrees, eye=lambda n: NotIdentity())
+            with patched(P, np=proxy, complex=cplx):
+                b = transform(arc, M)
+            return arc, st, en, rx, ry, M, b, list(eig_calls)
+        finally:
+            Arc._parameterize = orig
+
+    def all_runs():
+        for la_, sw_ in itertools.product((False, True), repeat=2):
+            for ctx_, res_ in explore(lambda: run(la_, sw_), maxpaths=100):
+                yield ctx_, res_, la_, sw_
+
+    for ctx, (kind, val), la_, sw_ in all_runs():
+        if kind == 'abort':
+            continue
+        R.path(ctx, nontrivial=True)
+        if kind != 'ok':
+            # an exception inside the arc branch: the property says transform() works for every invertible matrix -- replay a model of the path
+            r_, m_ = R.witness(ctx, 'exception-path')
+            done = False
+            if r_ == 'sat' and m_ is not None:
+                try:
+                    Mv = [[mval(m_, z3.Real('m%d%d' % (i, j))) for j in range(3)] for i in range(2)] + [[0.0, 0.0, 1.0]]
+                    inp = (max(0.5, abs(mval(m_, z3.Real('rx')))), max(0.5, abs(mval(m_, z3.Real('ry')))), deg, Mv)
+                    done = R.direct_cex('no-exception', {'cls': 'transform(Arc, M)', 'inputs': {'M': Mv, 'exception': repr(val)[:120]}, 'script': REPLAY_ARCTF % (inp,)})
+                except Exception:
+                    done = False
+            if not done:
+                R.unexpected(ctx, 'unexpected %s %r' % (kind, val))
+            continue
+        arc, st, en, rx, ry, M, b, ecalls = val
+        Ctx.cur = ctx
+
+        def cex(m):
+            Mv = [[mval(m, lift(M[i, j])) for j in range(3)] for i in range(3)]
+            inp = (mval(m, rx), mval(m, ry), deg, Mv)
+            return {'cls': 'transform(Arc, M)', 'inputs': {'rx': inp[0], 'ry': inp[1], 'rotation': deg, 'M': Mv}, 'script': REPLAY_ARCTF % (inp,)}
+        robust = [rx.e >= 0.5, rx.e <= 4, ry.e >= 0.5, ry.e <= 4] + [z3.And(lift(M[i, j]).e >= -3, lift(M[i, j]).e <= 3) for i in range(2) for j in range(3)] + \
+                 [z3.Or(det2(M).e >= 0.3, det2(M).e <= -0.3)]
+        if not isinstance(b, Arc):
+            R.ob('result-is-an-Arc', ctx, z3.BoolVal(False), cex=cex, robust=robust + [z3.BoolVal(True)])
+            continue
+
+        def img(z):
+            return SC(M[0, 0] * z.real + M[0, 1] * z.imag + M[0, 2], M[1, 0] * z.real + M[1, 1] * z.imag + M[1, 2])
+        if len(ecalls) != 1:
+            R.ob('one-eigendecomposition', ctx, z3.BoolVal(False), cex=cex, robust=robust + [z3.BoolVal(True)])
+            continue
+        contract, (Dp, Dq, Dq2, Dr), (l0, l1, vx, vy, wx, wy) = ecalls[0]
+        R.ob('end-points', ctx, z3.And(ceq(tosc(b.start), img(st)), ceq(tosc(b.end), img(en))), cex=cex, robust=None)
+        # quadratic forms
+        cc, ss = SR(z3.RealVal(str(c))), SR(z3.RealVal(str(s)))
+
+        def form(co, si, r1, r2):
+            # R diag(1/r1^2, 1/r2^2) R^T
+            i1, i2 = 1 / (r1 * r1), 1 / (r2 * r2)
+            return (co * co * i1 + si * si * i2, co * si * (i1 - i2), si * si * i1 + co * co * i2)
+        F = form(cc, ss, rx, ry)
+        rot_b = b.rotation
+        if not isinstance(rot_b, Ang):
+            R.ob('rotation-from-the-eigenvector', ctx, z3.BoolVal(False), cex=cex, robust=robust + [z3.BoolVal(True)])
+            continue
+        brad = tosc(b.radius)
+        Fb = form(SR(rot_b.c), SR(rot_b.s), brad.real, brad.imag)
+        a_, b_, c_, d_ = M[0, 0], M[0, 1], M[1, 0], M[1, 1]
+        # (i) the new radii / rotation are the spectral form of what eigh returned:  F' = l0 v v^T + l1 w w^T
+        S = (l0 * vx * vx + l1 * wx * wx, l0 * vx * vy + l1 * wx * wy, l0 * vy * vy + l1 * wy * wy)
+        for nm, lhs, rhs in (('11', Fb[0], S[0]), ('12', Fb[1], S[1]), ('22', Fb[2], S[2])):
+            gap = lift(lhs).e - lift(rhs).e
+            R.ob_eq('new-ellipse=spectral-form.%s' % nm, ctx, lift(lhs).e, lift(rhs).e, extra=contract, cex=cex,
+                    robust=robust + contract + [z3.Or(gap >= 0.05, gap <= -0.05)], timeout_ms=60000)
+        # (ii) the matrix handed to eigh, pulled back by A, is the old ellipse's form:  A^T D A = F   (and D is symmetric)
+        p11 = a_ * (Dp * a_ + Dq * c_) + c_ * (Dq2 * a_ + Dr * c_)
+        p12 = a_ * (Dp * b_ + Dq * d_) + c_ * (Dq2 * b_ + Dr * d_)
+        p22 = b_ * (Dp * b_ + Dq * d_) + d_ * (Dq2 * b_ + Dr * d_)
+        for nm, lhs, rhs in (('11', p11, F[0]), ('12', p12, F[1]), ('22', p22, F[2]), ('symmetric', Dq, Dq2)):
+            gap = lift(lhs).e - lift(rhs).e
+            R.ob_eq('decomposed-matrix=pulled-back-form.%s' % nm, ctx, lift(lhs).e, lift(rhs).e, cex=cex,
+                    robust=robust + [z3.Or(gap >= 0.05, gap <= -0.05)], timeout_ms=60000)
+        detA = det2(M)
+        R.ob('large_arc-kept', ctx, z3.BoolVal(b.large_arc is la_), cex=cex, robust=robust + [z3.BoolVal(True)])
+        if b.sweep is sw_:
+            R.ob('sweep-kept-only-if-orientation-preserved', ctx, detA.e > 0, cex=cex, robust=robust + [detA.e <= -0.3])
+        else:
+            R.ob('sweep-flipped-only-if-orientation-reversed', ctx, detA.e < 0, cex=cex, robust=robust + [detA.e >= 0.3])
+        R.sample({'rotation': rot, 'matrix': mclass, 'decisions': ''.join('TF'[not d[0]] for d in ctx.decisions[:ctx.pos])})
+
+
 def families(tier):
     M = 'vf.props.c10'
     fams = [('bezier-ops-deg%d' % d, M, 'fam_bezier_ops', {'deg': d}) for d in (1, 2, 3)]
     fams.append(('arc-scale-refusal', M, 'fam_arc_scale_refusal', {}))
     fams.append(('arc-ops-structure', M, 'fam_arc_ops_structure', {}))
+    for rot in (('0', 'p37') if tier == 'quick' else ('0', 'p37', '90', 'm67', 'p127')):
+        for mc in ('similarity', 'diagonal', 'shear', 'reflection', 'general'):
+            fams.append(('arc-transform-%s-%s' % (rot, mc), M, 'fam_arc_transform', {'rot': rot, 'mclass': mc}))
     for op in ('translated', 'rotated', 'scaled', 'scaled1', 'transform'):
         for n in ((1, 2, 3) if tier == 'quick' else (1, 2, 3, 4)):
             fams.append(('joints-%s-n%d' % (op, n), M, 'fam_joints', {'n': n, 'op': op}))
